@@ -48,10 +48,16 @@ Record variant := mkVariant {
   v_diff : bool;     (* Difference adds 2^32 *)
   v_fin : bool;      (* FIN bumps nextSeq only when the FIN segment itself was handled in order *)
   v_keep : bool;     (* cleanSG: the KeepFrom offset applies to the first kept container only *)
-  v_syn : bool       (* a SYN seen after nextSeq is known still takes one sequence number *)
+  v_syn : bool;      (* a SYN seen after nextSeq is known still takes one sequence number *)
+  (* page-accounting repairs made for C11 on top of these (branch agent-c11 of the repository);
+     they change pageCache.used / half.pages only, and only when KeepFrom is used *)
+  v_relsaved : bool; (* closeHalfConnection also releases the saved (KeepFrom) pages *)
+  v_pagecount : bool (* half.pages counts the saved pages: cleanSG adds the pages allocated for kept
+                        bytes of the live packet, addPending's drop and the close subtract *)
 }.
-Definition origv : variant := mkVariant false false false false.
-Definition fixedv : variant := mkVariant true true true true.
+Definition origv : variant := mkVariant false false false false false false.
+Definition fixedv : variant := mkVariant true true true true false false.   (* branch agent-c09 *)
+Definition fullv : variant := mkVariant true true true true true true.      (* with the C11 repairs *)
 
 Definition diffv (v : variant) (s t : Z) : Z := if v_diff v then diff s t else diff_orig s t.
 
@@ -295,20 +301,23 @@ Definition send (v : variant) (c : cfg) (h : half) (used : Z) (r0 : cont) (sid n
   let '(ndx, kskip) := if toKeep <? 0 then (length all, 0) else find_keep all toKeep 0 toKeep O in
   let relc := count_pages (firstn ndx all) in
   let '(saved2, alloc, pk) := keep_conv v (skipn ndx all) kskip in
-  mkSres (mkHalf (h_pages h - relc) saved2 q1 (h_next h) (h_seen h) (h_closed h))
+  mkSres (mkHalf (if v_pagecount v then h_pages h - relc - reld + alloc else h_pages h - relc)
+                 saved2 q1 (h_next h) (h_seen h) (h_closed h))
          (used - reld - relc + alloc) nextSeq isEnd
          ((if reld >? 0 then [ETag 16] else []) ++ (if savedLen >? 0 then [ETag 14] else []) ++ [ev])
          pk.
 
 (* ---------------------------------------------------------------- closeHalfConnection, :1199-1218 *)
-Definition close_c2s (s : st) : st * list event :=
+Definition close_c2s (v : variant) (s : st) : st * list event :=
   let h := s_half s in
   let n := zlen (h_queue h) in
-  let h' := mkHalf (h_pages h - n) (h_saved h) [] (h_next h) (h_seen h) true in
+  let m := if v_relsaved v then zlen (h_saved h) else 0 in
+  let h' := mkHalf (if v_pagecount v then h_pages h - n - m else h_pages h - n)
+                   (if v_relsaved v then [] else h_saved h) [] (h_next h) (h_seen h) true in
   if s_rev_closed s then
-    (mkSt (s_cfg s) false h' true (s_rev_seen s) (s_used s - n) (s_sid s) (s_ncalls s), [EDone (s_sid s)])
+    (mkSt (s_cfg s) false h' true (s_rev_seen s) (s_used s - n - m) (s_sid s) (s_ncalls s), [EDone (s_sid s)])
   else
-    (mkSt (s_cfg s) (s_exists s) h' false (s_rev_seen s) (s_used s - n) (s_sid s) (s_ncalls s), []).
+    (mkSt (s_cfg s) (s_exists s) h' false (s_rev_seen s) (s_used s - n - m) (s_sid s) (s_ncalls s), []).
 
 Definition close_rev (s : st) : st * list event :=
   if h_closed (s_half s) then
@@ -328,14 +337,14 @@ Definition send_st (v : variant) (s : st) (h : half) (used : Z) (r0 : cont) : st
                  (s_sid s) (S (s_ncalls s)) in
   if sr_panic r then (s1, sr_next r, sr_ev r ++ [EPanic 5], true)
   else if sr_end r then
-    let '(s2, ev2) := close_c2s s1 in (s2, sr_next r, sr_ev r ++ ev2, false)
+    let '(s2, ev2) := close_c2s v s1 in (s2, sr_next r, sr_ev r ++ ev2, false)
   else (s1, sr_next r, sr_ev r, false).
 
 (* ---------------------------------------------------------------- skipFlush, :1181-1197 *)
 Definition skip_flush (v : variant) (s : st) : st * list event * bool :=
   let h := s_half s in
   match h_queue h with
-  | [] => let '(s', ev) := close_c2s s in (s', ev, false)
+  | [] => let '(s', ev) := close_c2s v s in (s', ev, false)
   | p :: q' =>
     let h1 := mkHalf (h_pages h) (h_saved h) q' (h_next h) (h_seen h) (h_closed h) in
     let '(s1, nextSeq, ev, pk) := send_st v s h1 (s_used s) (CPage p) in
@@ -371,7 +380,7 @@ Definition flush_close_c2s (v : variant) (s : st) (t tc : Z) : st * list event *
     else if h_closed (s_half s1) then (s1, ev1, false)
     else
       match h_queue (s_half s1) with
-      | [] => if conn_last_seen s1 <? tc then let '(s2, ev2) := close_c2s s1 in (s2, ev1 ++ ev2, false)
+      | [] => if conn_last_seen s1 <? tc then let '(s2, ev2) := close_c2s v s1 in (s2, ev1 ++ ev2, false)
               else (s1, ev1, false)
       | _ => (s1, ev1, false)
       end.
@@ -522,7 +531,7 @@ Fixpoint run_trace (v : variant) (s : st) (ops : list op) : list (list event * Z
   end.
 
 Definition run_fixed (ops : list op) := run_trace fixedv init ops.
-Definition run_variant (d f k y : bool) (ops : list op) := run_trace (mkVariant d f k y) init ops.
+Definition run_variant (d f k y a b : bool) (ops : list op) := run_trace (mkVariant d f k y a b) init ops.
 
 (* ghost notions used by the statements: the sequence number of the byte at absolute stream
    offset o for initial sequence number i (the SYN takes i, the first data byte i+1), and the
